@@ -652,17 +652,66 @@ def build_call(spec_d, keep=None):
 
     rg = make_rgrid(spec_d["r"], spec_d["w"], spec_d.get("rdtype", "float64"), spec_d.get("wdtype", "float64"), spec_d.get("layout", "c"))
     kw = {"center": make_center(spec_d), "rotate": spec_d["rotate"], "method": spec_d["method"]}
+    kind, vals = spec_d["spec"]
+    arg = make_spec_arg(vals, spec_d.get("spec_form", "list")) if (keep is None or "spec" not in keep) else keep["spec"]
     if keep is not None:
         keep["center"] = kw["center"]
+        keep["spec"] = arg           # the very object handed to the call (a later call may be given the same object)
     if spec_d["via"] == "init":
-        kind, vals = spec_d["spec"]
         if kind == "sizes":
-            return observe(lambda: AtomGrid(rg, degrees=[3], sizes=list(vals), **kw))
-        return observe(lambda: AtomGrid(rg, degrees=list(vals), **kw))
-    kind, vals = spec_d["spec"]
+            return observe(lambda: AtomGrid(rg, degrees=[3], sizes=arg, **kw))
+        return observe(lambda: AtomGrid(rg, degrees=arg, **kw))
+    rsec = np.array(spec_d["rsec"], dtype=float) if spec_d.get("rsec_form") == "array" else list(spec_d["rsec"])
     if kind == "sizes":
-        return observe(lambda: AtomGrid.from_pruned(rg, spec_d["radius"], r_sectors=list(spec_d["rsec"]), d_sectors=None, s_sectors=list(vals), **kw))
-    return observe(lambda: AtomGrid.from_pruned(rg, spec_d["radius"], r_sectors=list(spec_d["rsec"]), d_sectors=list(vals), **kw))
+        return observe(lambda: AtomGrid.from_pruned(rg, spec_d["radius"], r_sectors=rsec, d_sectors=None, s_sectors=arg, **kw))
+    return observe(lambda: AtomGrid.from_pruned(rg, spec_d["radius"], r_sectors=rsec, d_sectors=arg, **kw))
+
+
+def make_spec_arg(vals, form):
+    """the degree / size request as the caller passes it: list, int64 / int32 ndarray, read-only ndarray"""
+    if form == "list":
+        return list(vals)
+    a = np.array(list(vals), dtype="int32" if form == "int32" else "int64")
+    if form == "readonly":
+        a.setflags(write=False)
+    return a
+
+
+def reuse_history(sph, tabs, g, d, keep, obs, seen, other_meth):
+    """Histories with the caller's request array (only when an ndarray was passed):
+       (1) the same array object is handed to a second construction with another angular method: that grid must use the
+           least supported degrees not below what the CALLER wrote into the array;
+       (2) the caller then refills its array: the first grid's degrees and per-shell grids must not follow.
+    Returns a list of (what, text)."""
+    arr = keep.get("spec")
+    if not isinstance(arr, np.ndarray):
+        return []
+    out = []
+    n = len(d["r"])
+    kind, vals = d["spec"]
+    if d["via"] == "init":
+        req2 = requested_degrees(tabs, other_meth, n, (kind, list(vals)))
+        if req2 is not None:
+            d2 = dict(d, method=other_meth, rotate=0)
+            st2, g2 = build_call(d2, {"spec": arr})
+            if st2 == "exc":
+                out.append(("reuse_raises", f"a second grid built from the SAME request array with method '{other_meth}' raised {g2}"))
+            else:
+                center = [0.0, 0.0, 0.0] if d["center"] is None else d["center"]
+                v = judge_grid(sph, tabs, other_meth, d["r"], d["w"], req2, np.array(center), 0, grid_obs(g2))
+                if v is not None:
+                    out.append(("reuse", f"a second grid built from the SAME request array {list(vals)} with method '{other_meth}': {v[1]}"))
+    if arr.flags.writeable and len(arr) > 0:
+        arr[...] = arr[::-1].copy() + 2          # the caller refills its array for the next atom
+        st3, degs_now = observe(lambda: [int(x) for x in g.degrees])
+        if st3 == "exc" or degs_now != obs["degs"]:
+            out.append(("degrees_follow", f"after the caller refilled its request array the grid reports degrees {degs_now} instead of {obs['degs']}"))
+        for i, r_sq, sp, sw in seen:
+            st4, sg = observe(lambda: g.get_shell_grid(i, r_sq=r_sq))
+            if st4 == "exc" or not (np.array_equal(np.array(sg.points, dtype=float), sp) and np.array_equal(np.array(sg.weights, dtype=float), sw)):
+                out.append(("shell_follows", f"after the caller refilled its request array get_shell_grid({i}, r_sq={r_sq}) no longer is the stored shell"))
+                break
+    return out
 
 
 def call_text(d):
@@ -673,10 +722,13 @@ def call_text(d):
     sto = "" if (rd, wd, lay) == ("float64", "float64", "c") else f" [points {rd}, weights {wd}" + ("" if lay == "c" else f", {lay} arrays") + "]"
     base = f"rgrid=OneDGrid({d['r']}, {d['w']}, (0, inf)){sto}, center={c}, rotate={d['rotate']}, method='{d['method']}'"
     kind, vals = d["spec"]
+    form = d.get("spec_form", "list")
+    vtxt = f"{vals}" if form == "list" else f"np.array({vals}, dtype={'int32' if form == 'int32' else 'int64'})" + (" (read-only)" if form == "readonly" else "")
     if d["via"] == "init":
-        return f"AtomGrid({'sizes' if kind == 'sizes' else 'degrees'}={vals}, {base})"
-    return (f"AtomGrid.from_pruned(radius={d['radius']}, r_sectors={d['rsec']}, "
-            f"{'s_sectors' if kind == 'sizes' else 'd_sectors'}={vals}, {base})")
+        return f"AtomGrid({'sizes' if kind == 'sizes' else 'degrees'}={vtxt}, {base})"
+    rtxt = f"np.array({d['rsec']})" if d.get("rsec_form") == "array" else f"{d['rsec']}"
+    return (f"AtomGrid.from_pruned(radius={d['radius']}, r_sectors={rtxt}, "
+            f"{'s_sectors' if kind == 'sizes' else 'd_sectors'}={vtxt}, {base})")
 
 
 def pruned_request(tabs, d):
@@ -793,9 +845,10 @@ def judge_call(sph, tabs, d):
     v = judge_grid(sph, tabs, meth, d["r"], d["w"], req, np.array(center), rotate, obs)
     if v is not None:
         return out + [v]
-    bs, _ = judge_shells(sph, g, d, obs)
+    bs, seen = judge_shells(sph, g, d, obs)
     if bs is not None:
         out.append(("shell_grid", f"get_shell_grid({bs[0]}, r_sq={bs[1]}): {bs[2]}"))
+    out += reuse_history(sph, tabs, g, d, keep, obs, seen, d.get("other_method", "lebedev" if meth != "lebedev" else "spherical"))
     ci = centre_inplace_check(sph, tabs, g, d, req, keep.get("center"), d.get("centre_shift", [0.5, -1.25, 2.0]))
     if ci is not None:
         out.append(ci)
@@ -945,8 +998,12 @@ def _run(ctx: Ctx):
         c = d["center"]
         kinds = ["array", "array", "list"] + (["intarray", "intlist"] if c is not None and all(float(x).is_integer() for x in c) else [])
         d["center_kind"] = "array" if c is None else rng.choice(kinds)
+        # how the caller hands over the degree / size request and the sector bounds: list or ndarray
+        d["spec_form"] = rng.choice(["list", "list", "int64", "int64", "int32", "readonly"])
+        if d["via"] == "pruned":
+            d["rsec_form"] = rng.choice(["list", "array"])
 
-    for ci, d in enumerate(calls):
+    def do_call(ci, d):
         n = len(d["r"])
         meth, rotate = d["method"], d["rotate"]
         center = [0.0, 0.0, 0.0] if d["center"] is None else d["center"]
@@ -981,11 +1038,11 @@ def _run(ctx: Ctx):
             elif not (g.startswith("ValueError") or g.startswith("TypeError")):
                 report(n, "corr_constructor", key, g.split(":")[0], f"{key} raised {g} instead of rejecting the arguments with ValueError/TypeError", {"call": d})
             case(f"is_none g{ci}", {"kind": "rejects", "call": d, "key": key, "exc": g})
-            continue
+            return
         if not must_build:
             report(n, "corr_constructor", key, "accepted", f"{key} was accepted although the arguments are invalid", {"call": d})
             case(f"negb (is_none g{ci})", {"kind": "accepts", "call": d, "key": key})
-            continue
+            return
         # history on this one object: first read, caller edits the returned array in place, everything is read again;
         # the values compared with the model and judged by the product formula are those of the SECOND read
         _, obs, prob = read_after_caller_edit(g)
@@ -996,7 +1053,7 @@ def _run(ctx: Ctx):
             sph.need(meth, dg)
         if not finite(obs["pts"], obs["pts0"], obs["wts"]):
             report(n, "corr_constructor", key, "nonfinite", f"{key}: non-finite points or weights", {"call": d})
-            continue
+            return
         verdict = judge_grid(sph, tabs, meth, d["r"], d["w"], req, np.array(center), rotate, obs)
         if verdict is not None:
             report(n, "shell_points_weights" if verdict[0] in ("points", "points0", "weights") else
@@ -1037,6 +1094,12 @@ def _run(ctx: Ctx):
                 report(n, "rotation_keeps_radii", key + f" shell {i}", float(np.max(np.abs(rad[a:b] - d["r"][i]))),
                        f"{key}: points of shell {i} are not at distance r_i = {d['r'][i]} from the centre", {"call": d, "shell": i})
                 break
+        # histories with the caller's request array: reuse for a second grid with another method, then refill
+        other = rng.choice([m for m in ("lebedev", "spherical", "maxdet", "ahrens_beylkin") if m != meth and (m != "ahrens_beylkin" or n <= 2)])
+        for what, text in reuse_history(sph, tabs, g, d, keep, obs, seen, other):
+            report(n, "never_coarser" if what.startswith("reuse") else "shell_grid_consistent",
+                   key + f"  [request array reused with method '{other}', then refilled by the caller]", what, f"{key}: {text}",
+                   {"call": dict(d, other_method=other), "history": what})
         # history: the caller updates the float64 array it passed as centre in place
         cshift = [rng.randint(-6, 6) / 4.0 for _ in range(3)]
         civ = centre_inplace_check(sph, tabs, g, d, req, keep.get("center"), cshift)
@@ -1045,6 +1108,12 @@ def _run(ctx: Ctx):
                    {"call": dict(d, centre_shift=cshift), "history": "centre_inplace"})
         if ci < 4:
             ctx.sample({"call": key, "degrees": obs["degs"], "indices": obs["idx"], "first_point": obs["pts"][0].tolist(), "first_weight": float(obs["wts"][0])})
+    for ci, d in enumerate(calls):
+        try:
+            do_call(ci, d)
+        except Exception as e:  # noqa: BLE001 - the implementation raised inside one of the reads / histories of this call
+            report(len(d["r"]), "corr_constructor", call_text(d) + "  [reads and histories]", type(e).__name__,
+                   f"{call_text(d)}: reading the grid / running the histories raised {type(e).__name__}: {str(e)[:120]}", {"call": d})
     ctx.cov["small_calls"] = len(calls)
     lap("small")
 
@@ -1134,7 +1203,8 @@ def _run(ctx: Ctx):
     ctx.cov["preset_pairs_constructed"] = len(pairs)
     ctx.cov["preset_constructions"] = len(jobs)
 
-    for (p, a, meth, gk, center, rotate, first_visit) in jobs:
+    def do_job(job):
+        (p, a, meth, gk, center, rotate, first_visit) = job
         kind, rad, npt = presets[p]["rows"][a]
         is_count = kind == "I"
         cen = np.zeros(3) if center is None else np.array(center)
@@ -1181,7 +1251,7 @@ def _run(ctx: Ctx):
             if (p, a) not in LISTED_BAD:
                 for ob in ("presets_bad_rows_listed", "presets_build_partial"):
                     report(n, ob, key, g.split(":")[0], f"{key} raised {g}: a tabulated element cannot be built", rp)
-            continue
+            return
         _, obs, prob = read_after_caller_edit(g)
         if prob is not None:
             report(len(rpts), "shell_points_weights", key + "  [read .points, edit the returned array in place, read again]", prob[0], f"{key}: {prob[1]}", rp)
@@ -1192,6 +1262,13 @@ def _run(ctx: Ctx):
             for ob in (("presets_build_partial", "presets_bad_rows_listed") if bad[0] in ("length", "coarser") else
                        (("presets_build_partial",) if bad[0] == "degrees" else ("shell_points_weights",))):
                 report(len(rpts), ob, key, bad[0], f"{key}: {bad[1]}", rp)
+    for job in jobs:
+        try:
+            do_job(job)
+        except Exception as e:  # noqa: BLE001
+            kj = f"AtomGrid.from_preset(atnum={job[1]}, preset='{job[0]}', method='{job[2]}', center={job[4]}, rotate={job[5]})  [reads and histories]"
+            report(0, "presets_build_partial", kj, type(e).__name__, f"{kj}: reading the grid raised {type(e).__name__}: {str(e)[:120]}",
+                   {"atnum": job[1], "preset": job[0], "method": job[2]})
     # default radial grid exists exactly for the tabulated parameter rows
     for a in range(1, 101):
         p = next((q for q in ("fine", "coarse", "sg_1") if q in presets and a in presets[q]["rows"] and presets[q]["rows"][a][0] == "F"), None)
@@ -1390,6 +1467,9 @@ def run(ctx: Ctx):
         else:
             per = {}
             for size, ob, key, obs_, text, rp, found in items:     # smallest inputs first, capped per obligation
+                if found and ctx.is_known(key, obs_):              # a listed known finding never uses up a slot of the cap
+                    ctx.fail(ob, key, obs_, text, rp)
+                    continue
                 per[ob] = per.get(ob, 0) + 1
                 if per[ob] <= MAXREP:
                     ctx.fail(ob, key, obs_, text, rp, found_input=found)
